@@ -1377,12 +1377,14 @@ class ExtendedZoneProcessor: public ZoneProcessor {
     }
 
     /**
-     * Normalize DateTuple::minutes if its magnitude is more than 24
-     * hours.
+     * Normalize DateTuple::minutes into [0, 24h) if it is negative or more
+     * than 24 hours. (A negative value must be normalized even if its magnitude
+     * is less than 24 hours, otherwise the tuple compares as later than every
+     * time of the previous day.)
      */
     static void normalizeDateTuple(extended::DateTuple* dt) {
       const int16_t kOneDayAsMinutes = 60 * 24;
-      if (dt->minutes <= -kOneDayAsMinutes) {
+      if (dt->minutes < 0) {
         LocalDate ld = LocalDate::forTinyComponents(
             dt->yearTiny, dt->month, dt->day);
         local_date_mutation::decrementOneDay(ld);
